@@ -406,9 +406,10 @@ func c08NodeForward(o *hx.Out) {
 		got := 0
 		for evt := range node.Events() {
 			if fe, ok := evt.(*gomavlib.EventFrame); ok {
+				held := fe.Message() // the decoded message the application was handed
 				node.WriteFrameExcept(fe.Channel, fe.Frame) //nolint:errcheck
 				// the application keeps using its message
-				v := reflect.ValueOf(fe.Message()).Elem()
+				v := reflect.ValueOf(held).Elem()
 				if f := v.FieldByName("Text"); f.IsValid() {
 					f.SetString("overwritten by the application")
 				}
@@ -416,7 +417,7 @@ func c08NodeForward(o *hx.Out) {
 					f.SetUint(7)
 				}
 				got++
-				if got == n {
+				if got == 2*n {
 					out.UnblockWrites()
 				}
 			}
@@ -429,13 +430,17 @@ func c08NodeForward(o *hx.Out) {
 		reflect.ValueOf(m).Elem().FieldByName("Text").SetString("frame " + strconv.Itoa(i))
 		fr := validFrame(r, drw, m, true, nil)
 		bs, _ := writeFrame(drw, fr)
-		sentHex = append(sentHex, hx.Value(canonMsg(drw, m)))
+		// every frame arrives twice, byte for byte (a sender repeating itself): the second copy is
+		// forwarded as it arrived, whatever the application did to the message of the first
+		sentHex = append(sentHex, hx.Value(canonMsg(drw, m)), hx.Value(canonMsg(drw, m)))
+		in.Feed(bs)
 		in.Feed(bs)
 	}
-	okw := out.WaitWrites(func(ws [][]byte) bool { return len(ws) >= n })
+	n2 := 2 * n
+	okw := out.WaitWrites(func(ws [][]byte) bool { return len(ws) >= n2 })
 	ws := out.Writes()
-	if !okw || len(ws) != n {
-		verdict = "FORWARDED " + strconv.Itoa(len(ws)) + " OF " + strconv.Itoa(n)
+	if !okw || len(ws) != n2 {
+		verdict = "FORWARDED " + strconv.Itoa(len(ws)) + " OF " + strconv.Itoa(n2)
 	} else {
 		for i, w := range ws {
 			rd := &frame.Reader{ByteReader: bytes.NewReader(w), DialectRW: drw}
